@@ -107,6 +107,19 @@ func (m *Mast) Delete(ctx context.Context, key, value interface{}) error {
 	if err != nil {
 		return err
 	}
+	// Shrinking the tree comes after the entry is gone and has to load the top
+	// node's children, which can fail. If this delete may shrink the tree, it
+	// works on private copies of the path, so that the tree can be put back
+	// exactly as it was when that happens.
+	var saved *Mast
+	if m.height > 0 && (m.size-1 <= m.shrinkBelowSize || len(options.path[0].node.Key) <= 1) {
+		before := *m
+		saved = &before
+		for j := range options.path {
+			options.path[j].node = options.path[j].node.xcopy()
+		}
+		node = options.path[len(options.path)-1].node
+	}
 	node, err = deleteEntry(ctx, m, node, i)
 	if err != nil {
 		return err
@@ -124,6 +137,9 @@ func (m *Mast) Delete(ctx context.Context, key, value interface{}) error {
 			var top *mastNode
 			top, err = m.load(ctx, m.root)
 			if err != nil {
+				if saved != nil {
+					*m = *saved
+				}
 				return fmt.Errorf("load root: %w", err)
 			}
 			if len(top.Key) > 0 {
@@ -132,6 +148,9 @@ func (m *Mast) Delete(ctx context.Context, key, value interface{}) error {
 		}
 		err = m.shrink(ctx)
 		if err != nil {
+			if saved != nil {
+				*m = *saved
+			}
 			return fmt.Errorf("shrink: %w", err)
 		}
 	}
